@@ -3,12 +3,12 @@
 # Shows that the replay fails on the tree without that fix and passes with it (working tree of /repo is restored afterwards).
 set -u
 C=$1; R=$(readlink -f "$2"); H=${3:-sim_replay}
-cd /verif
+cd /verif; export TSAN_OPTIONS="halt_on_error=1:exitcode=96:suppressions=/verif/harness/tsan.supp"
 git -C /repo diff --quiet || { echo "repo working tree not clean"; exit 2; }
 git -C /repo diff "$C^" "$C" -- src | git -C /repo apply -R || { echo "cannot revert $C"; exit 2; }
 python3 -c "import sys; sys.path.insert(0,'driver'); import build; build.build_harnesses(['$H'])" >/dev/null 2>&1
-W=$(build/bin/$H --replay "$R" 2>&1 | grep -E "^(FAIL|PASS)|ERROR: AddressSanitizer|ERROR: LeakSanitizer|VERIF-HANG|runtime error" | head -2 | tr '\n' ' ')
+W=$(build/bin/$H --replay "$R" 2>&1 | grep -E "^(FAIL|PASS)|ERROR: AddressSanitizer|ERROR: LeakSanitizer|VERIF-HANG|runtime error|WARNING: ThreadSanitizer" | head -2 | tr '\n' ' ')
 git -C /repo checkout -- src
 python3 -c "import sys; sys.path.insert(0,'driver'); import build; build.build_harnesses(['$H'])" >/dev/null 2>&1
-P=$(build/bin/$H --replay "$R" 2>&1 | grep -E "^(FAIL|PASS)|ERROR: AddressSanitizer|ERROR: LeakSanitizer|VERIF-HANG|runtime error" | head -2 | tr '\n' ' ')
+P=$(build/bin/$H --replay "$R" 2>&1 | grep -E "^(FAIL|PASS)|ERROR: AddressSanitizer|ERROR: LeakSanitizer|VERIF-HANG|runtime error|WARNING: ThreadSanitizer" | head -2 | tr '\n' ' ')
 echo "fix=$C replay=$(basename $R) without: [$W] with: [$P]"
